@@ -10,6 +10,7 @@ half aligned.  Oracle: the per-example canonical run (that example alone, batch_
 """
 import itertools
 
+import numpy
 import torch
 
 from mc import dls_common as D
@@ -48,7 +49,45 @@ def bound(tier):
             "every ordered subset of a 3-example pool, n_shuffles 1..4, every batch size 1..N*S+1, 3 reference sources, 3 output modes, return_references on/off, args on/off, 3 models")
 
 
-MODELS = [("F", (), ()), ("CAMF", ("ReLU",), ((3, 1, 1, 1),)), ("CAFLA", ("Tanh", "Sigmoid"), ((2, 1, 1, 0),))]
+MODELS = [("F", (), ()), ("CAMF", ("ReLU",), ((3, 1, 1, 1),)), ("CAFLA", ("Tanh", "Sigmoid"), ((2, 1, 1, 0),)), ("CBAF", ("ReLU",), ())]
+
+
+def build_bn(seed):
+    """conv - BatchNorm (non-trivial running statistics) - ReLU - flatten - linear: batch-coupled unless in eval mode."""
+    g = torch.Generator().manual_seed(77 + seed)
+    conv = torch.nn.Conv1d(4, 3, 3, padding=1).double()
+    bn = torch.nn.BatchNorm1d(3).double()
+    lin = torch.nn.Linear(3 * L, 2).double()
+    with torch.no_grad():
+        conv.weight.copy_(torch.randint(-3, 4, conv.weight.shape, generator=g).double() / 2)
+        conv.bias.copy_(torch.tensor([0.5, -1.0, 0.25]))
+        bn.running_mean.copy_(torch.tensor([0.5, -1.0, 0.25]))
+        bn.running_var.copy_(torch.tensor([4.0, 0.25, 1.0]))
+        bn.weight.copy_(torch.tensor([2.0, 1.0, -1.0]))
+        bn.bias.copy_(torch.tensor([0.0, 0.5, 1.0]))
+        lin.weight.copy_(torch.randint(-3, 4, lin.weight.shape, generator=g).double() / 2)
+        lin.bias.copy_(torch.tensor([0.25, -0.75]))
+    return torch.nn.Sequential(conv, bn, torch.nn.ReLU(), torch.nn.Flatten(), lin)
+
+
+def set_mode(model, k):
+    """Mode history of the model before the call; deep_lift_shap evaluates in evaluation mode whatever it is handed."""
+    k = k % 4
+    if k == 0:
+        model.train()
+    elif k == 1:
+        model.eval()
+    elif k == 2:
+        model.eval()
+        for m in list(model.modules())[1:]:
+            m.train()
+    else:
+        model.eval()
+        model.training = True
+    return ("all_train", "all_eval", "root_eval_sub_train", "root_train_sub_eval")[k]
+
+
+SEED_TYPES = (int, numpy.int64, numpy.int32)
 
 
 def shards(tier, seed):
@@ -73,8 +112,9 @@ def run_shard(sh, tier, seed):
     from tangermeme.ersatz import dinucleotide_shuffle, shuffle
     rec = Recorder(PID, sh["name"])
     sk, acts, convs = MODELS[sh["mi"]]
-    net = D.build(sk, acts, convs, 2, L, 2, seed % 3)
+    net = build_bn(seed) if sk == "CBAF" else D.build(sk, acts, convs, 2, L, 2, seed % 3)
     model = Rec(net, sh["use_arg"])
+    sd0 = {k: v.clone() for k, v in model.state_dict().items()}
     X, R = pool(seed)
     A = torch.tensor([[3.0], [5.0], [7.0]], dtype=torch.float64)
     exact = sh["mi"] == 0
@@ -84,13 +124,13 @@ def run_shard(sh, tier, seed):
     Ss = (1, 2, 3) if tier == "quick" else (1, 2, 3, 4)
     modes = ("processed", "raw", "hypothetical")
     for S in Ss:
-        def kwargs(idx):
+        def kwargs(idx, seed_type=int):
             kw = dict(n_shuffles=S, device="cpu")
             if sh["src"] == "tensor":
                 kw["references"] = R[list(idx), :S]
             else:
                 kw["references"] = dinucleotide_shuffle if sh["src"] == "dinuc" else shuffle
-                kw["random_state"] = 11 + seed
+                kw["random_state"] = seed_type(11 + seed)     # an integer seed is an integer seed whatever its integer type
             if sh["use_arg"]:
                 kw["args"] = (A[list(idx)],)
             return kw
@@ -113,7 +153,10 @@ def run_shard(sh, tier, seed):
                         case = dict(fn="deep_lift_shap", model=sk, examples=list(sub), n_shuffles=S, batch_size=bs, mode=mode, source=sh["src"],
                                     args=sh["use_arg"], return_references=rr, seed=seed)
                         model.log = []
-                        st, val = call(deep_lift_shap, model, X[list(sub)], batch_size=bs, return_references=rr, **mk, **kwargs(sub))
+                        styp = SEED_TYPES[(bs + len(sub)) % 3]
+                        case["mode_before"] = set_mode(model, bs + N + modes.index(mode))
+                        case["seed_type"] = styp.__name__
+                        st, val = call(deep_lift_shap, model, X[list(sub)], batch_size=bs, return_references=rr, **mk, **kwargs(sub, styp))
                         rec.case(1, int(N >= 2 or S % bs != 0))
                         rec.count("traces_validated_against_impl")
                         if st != "ok":
@@ -222,6 +265,9 @@ def run_shard(sh, tier, seed):
             rec.violation("dls:result_depends_on_earlier_call", dict(fn="deep_lift_shap", model=sk, source=sh["src"], args=sh["use_arg"], seed=seed,
                           intervening_call=["generated refs + hypothetical", "additional_nonlinear_ops custom rule", "raw outputs, 1 reference"][oi]),
                           msg="the same call returns a different result after a differently configured call in between")
+    for k_, v_ in model.state_dict().items():
+        if not torch.equal(v_, sd0[k_]):
+            rec.violation("dls:model_state_changed", dict(fn="deep_lift_shap", model=sk, source=sh["src"], args=sh["use_arg"], seed=seed, key=k_))
     rec.count("states", len(states))
     rec.sample(dict(model=sk, source=sh["src"], args=sh["use_arg"], ordered_subsets=len(subsets), n_shuffles=list(Ss), batch_sizes="1..N*S+1", modes=list(modes)))
     return rec.result()
